@@ -10,6 +10,8 @@
 -/
 import P2P.Model.MainFlow
 import P2P.Gen.MainFlow
+import P2P.Model.ChargeGuard
+import P2P.Proofs.ChargeLemmas
 
 namespace P2P.Props.C12
 open P2P.MainFlow P2P.Gen.MainFlow
@@ -57,5 +59,27 @@ theorem checks_first :
     before (lastCall funcs "main_driver" "check_options") (firstCall funcs "main_driver" "io.get_definitions") = true ∧
     before (lastCall funcs "main_driver" "check_files") (firstCall funcs "main_driver" "io.get_molecule") = true := by
   decide +kernel
+
+/-- **the charge guard** (`utilities.noninteger_charge`, model P2P/Model/ChargeGuard.lean, run in
+`Float` by the driver against the real function): a total charge passes exactly when it lies
+within the tolerance of some integer — for every charge and every tolerance (over ℚ). With
+`charge_check_before_output` this is "a structure whose charges do not add up to an integer never
+reaches the output file". -/
+theorem charge_guard_spec (c tol : ℚ) :
+    P2P.ChargeGuard.nonInteger c tol = false ↔ ∃ n : ℤ, |c - (n : ℚ)| ≤ |tol| :=
+  P2P.Proofs.ChargeGuard.nonInteger_spec_core c tol
+
+/-- the total of the eight-residue CA trace of the seeded defect (-0.7086) is rejected -/
+example : P2P.ChargeGuard.nonInteger (-7086 / 10000 : ℚ) (1 / 1000) = true := by
+  by_contra h
+  rw [Bool.not_eq_true, charge_guard_spec] at h
+  obtain ⟨n, hn⟩ := h
+  have ht : |(1 : ℚ) / 1000| = 1 / 1000 := by norm_num
+  rw [ht, abs_le] at hn
+  have h1 : (n : ℚ) < 0 := by linarith [hn.1]
+  have h2 : (-1 : ℚ) < n := by linarith [hn.2]
+  have h3 : n < 0 := by exact_mod_cast h1
+  have h4 : -1 < n := by exact_mod_cast h2
+  omega
 
 end P2P.Props.C12
